@@ -34,6 +34,8 @@ class C16(Oracle):
         self.recheck_every = recheck_every
 
     def start(self, run, rp):
+        self.originals = []   # (step, state handed to StepSimulation.update, canonical result, canonical step events)
+        self.vs_original = 0
         self.saved = [(rp.s, deep_fp(rp.s), -1)]
         self.rn_fp = road_network_fp(rp.s.road_network)
         self.rn = rp.s.road_network
@@ -57,6 +59,11 @@ class C16(Oracle):
         if ctx.applied:
             sim_in, _, sim_out = ctx.applied[-1]
             self.saved.append((sim_in, deep_fp(sim_in), ctx.k))
+        # remember what this step made of the state it was handed (for the comparison at the end); not under injected failures
+        if ctx.step_io is not None and not ctx.fired and not ctx.run.plan["run"].get("buggify") and (ctx.k * 2654435761 + ctx.run.seed) % 5 < 2:
+            sim_in, sim_out = ctx.step_io
+            ev = sorted(canon_report(r) for r in ctx.reports if r.report_type.name not in ("ADD_REQUEST_EVENT", "CANCEL_REQUEST_EVENT"))
+            self.originals.append((ctx.k, sim_in, sim_canon(sim_out, drop_ids=True), ev))
         if ctx.k % self.recheck_every == self.recheck_every - 1:
             out += self._recheck(ctx.k)
         else:
@@ -100,6 +107,22 @@ class C16(Oracle):
                 out.append(V("C16", "restep_events_differ", at, f"stepping the state saved after step {at} twice gave different events"))
             if deep_fp(s) != f:
                 out.append(V("C16", "saved_state_changed", at, f"the state saved after step {at} was modified by stepping it"))
+        # ... and the same as the FIRST time, i.e. as the run itself made of it (this is what notices state that lives outside
+        # the SimulationState -- a cache or table inside the environment -- being changed by stepping)
+        for k, sim_in, want_c, want_ev in self.originals[-6:] + self.originals[:2]:
+            del env.reporter.reports[:]
+            nxt, _ = step_fn.update(sim_in, env)
+            got_ev = sorted(canon_report(r) for r in env.reporter.reports)
+            del env.reporter.reports[:]
+            self.vs_original += 1
+            got_c = sim_canon(nxt, drop_ids=True)
+            if got_c != want_c:
+                out.append(V("C16", "restep_differs_from_first_time", k, f"stepping the state that step {k} was computed from again gives a different state than the run itself did: {first_difference(want_c, got_c)}"))
+                break
+            if got_ev != want_ev:
+                out.append(V("C16", "restep_events_differ_from_first_time", k, f"stepping the state that step {k} was computed from again gives different events than the run itself did"))
+                break
+        run.probes["resteps_compared_with_the_run"] = self.vs_original
         out += self._recheck(run.steps_done)
         return out
 
